@@ -48,6 +48,18 @@ let parse_op (t : string list) : op =
   | [ "Signbit"; x ] -> OSignbit (v x)
   | [ "IsZero"; x ] -> OIsZero (v x)
   | [ "IsInf"; x ] -> OIsInf (v x)
+  | [ "Add"; z; x; y ] -> OAdd (v z, v x, v y)
+  | [ "Sub"; z; x; y ] -> OSub (v z, v x, v y)
+  | [ "Mul"; z; x; y ] -> OMul (v z, v x, v y)
+  | [ "Quo"; z; x; y ] -> OQuo (v z, v x, v y)
+  | [ "FMA"; z; x; y; u ] -> OFMA (v z, v x, v y, v u)
+  | [ "Set"; z; x ] -> OSet (v z, v x)
+  | [ "Neg"; z; x ] -> ONeg (v z, v x)
+  | [ "Abs"; z; x ] -> OAbs (v z, v x)
+  | [ "Copy"; z; x ] -> OCopy (v z, v x)
+  | [ "SetPrec"; z; p ] -> OSetPrec (v z, zs p)
+  | [ "SetMode"; z; m ] -> OSetMode (v z, mode_of m)
+  | [ "SetInf"; z; b ] -> OSetInf (v z, bool_of b)
   | _ -> failwith ("unknown op: " ^ String.concat " " t)
 
 let print_dec buf (d : dec) =
